@@ -148,7 +148,7 @@ def rand_tree(rng, budget, depth, maxdepth, names):
 
 
 def rand_prog(rng, n):
-    w = rng.choice(["DDDDDDBS", "DDBSA", "DBS", "DDDBSSA", "BS"])
+    w = rng.choice(["DDDDDDBS", "DDBSA", "DBS", "DDDBSSA", "BS", "DdDdBS", "ddddBSA"])
     return "".join(rng.choice(w) for _ in range(n))
 
 
@@ -183,7 +183,10 @@ def fam_depth(rng):
                     t = chain(depth, name_of, [text("xy")], width)
                     n = size(t)
                     progs = {"D" * n, "D" * (depth - 1) + "B", "D" * (depth - 1) + "S", "D" * max(0, depth - 2) + "B",
-                             "D" * max(0, depth - 2) + "S" + "D", rand_prog(rng, n)}
+                             "D" * max(0, depth - 2) + "S" + "D", rand_prog(rng, n),
+                             # callbacks that do not hand the nested result back, at every level / at the limit / above it
+                             "d" * n, "D" * max(0, lim - 1) + "d" * n, "D" * max(0, lim - 2) + "d" + "D" * n,
+                             "".join(rng.choice("Dd") for _ in range(n))}
                     for p in sorted(progs):
                         docs.append(Doc(t, p, md=md, p=rng.choice(PRES[:3]), fam="depth"))
     return docs
@@ -306,8 +309,9 @@ def run(ctx):
         "dialect: explicit start/end tags, names without markup/space/'/'/'='/quote/'?'/'!', attributes name=value or "
         "name=\"value\" separated by single spaces, values without space/quote/markup (unquoted values not ending in '/'), "
         "text of any bytes except '<' and '>', preamble items '<?...?>' / '<!...>' without '<' '>' inside, white space around them",
-        "the callback program is indexed by callback invocation; the callback returns what traverse / as_body returned, "
-        "Abort raises an error and returns AWS_OP_ERR",
+        "the callback program is indexed by callback invocation; the callback returns what traverse / as_body returned "
+        "(action 'd': descends and returns success whatever the nested traversal returned - the observations must be those of 'D', "
+        "a failure is the parser's to remember), Abort raises an error and returns AWS_OP_ERR",
         "descending into an element at depth = max_depth that has no child elements may be refused or accepted (the statement "
         "does not say which side of the limit it is on); a name longer than 256 must be refused by skip / body, descending into "
         "it is reported normally",
